@@ -118,9 +118,15 @@ class Spec:
         self.files = []
         self.notes = {}
         self.callbacks = {}
+        self.specbuiltins = {}
+        self.lemmas = {}
 
     def load(self, path):
         name = 'contract_' + os.path.basename(path)[:-3]
+        import sys
+        d = os.path.dirname(os.path.abspath(path))
+        if d not in sys.path:
+            sys.path.insert(0, d)
         sp = importlib.util.spec_from_file_location(name, path)
         mod = importlib.util.module_from_spec(sp)
         sp.loader.exec_module(mod)
@@ -151,6 +157,10 @@ class Spec:
         self.externs.update(getattr(mod, 'EXTERNS', {}))
         self.assumptions.extend(getattr(mod, 'ASSUMPTIONS', []))
         self.callbacks.update(getattr(mod, 'CALLBACKS', {}))
+        self.specbuiltins.update(getattr(mod, 'SPECBUILTINS', {}))
+        self.lemmas.update(getattr(mod, 'LEMMAS', {}))
+        for k, v in getattr(mod, 'NOTES', {}).items():
+            self.notes[k] = v
         for m in getattr(mod, 'MODULES', []):
             if m not in self.modules:
                 self.modules.append(m)
